@@ -1698,7 +1698,12 @@ class _Loops:
             return View(lambda st_: Length(ks),
                         lambda st_, i: V(TUP(OBJ, OBJ), (V(OBJ, ks[i]), V(OBJ, z3.Select(m, ks[i])))), TUP(OBJ, OBJ))
         if k == 'obj':
-            s = z3.If(is_seq(itv.t), unbox_seq(itv.t), self.listval(st, itv.t))
+            hook = getattr(self.proc, 'iter_obj', None)
+            if hook is not None:
+                # the contract says what iterating an object of the modelled shapes yields (e.g. a declaration: its interfaces)
+                s = hook(self, st, itv.t)
+            else:
+                s = z3.If(is_seq(itv.t), unbox_seq(itv.t), self.listval(st, itv.t))
             return View(lambda st_: Length(s), lambda st_, i: V(OBJ, s[i]), OBJ)
         raise Unsupported(node, 'iteration over %r' % (itv.ty,))
 
